@@ -12,7 +12,10 @@
    Compared: Uploader.lastIndex afterwards, whether upload returned an error, and the sequence of
    provider / storage calls with the label given to Upload. *)
 From Coq Require Import List String Bool NArith ZArith Lia ZifyBool ZifyN.
-From RQ Require Import Lib.GoLib Lib.GenTac Model.C37 Gen.Uploader.
+From RQ Require Import Lib.GoLib.
+From RQ Require Import Lib.GenTac.
+From RQ Require Import Model.C37.
+From RQ Require Import Gen.Uploader.
 Import ListNotations.
 Local Open Scope N_scope.
 
@@ -74,7 +77,7 @@ Section Upload.
     isSome (snd (fst (gen_upload w e))) = is_error (snd (fst (round w e))) /\
     kinds_of_effects (snd (gen_upload w e)) = map kind_of_call (snd (round w e)).
   Proof.
-    intros w e. unfold gen_upload, Uploader_upload, round, rep, fail.
+    intros w e. unfold gen_upload, Uploader_upload, round, rep, fail. aux.
     cbn [Uploader_lastIndex Uploader_dataProvider Uploader_storageClient set_Uploader_lastIndex
          set_Uploader_lastUploadTime set_Uploader_lastUploadDuration].
     cbn [set_db w_db].
